@@ -1,8 +1,9 @@
 (** Extraction of the executable model (ExtrOcamlBasic only; nat, N, positive stay Coq datatypes). *)
 Require Import Coq.extraction.Extraction Coq.extraction.ExtrOcamlBasic.
-Require Import MRB.Model.Types MRB.Model.Seq MRB.Spec.Pipe MRB.Model.Async MRB.Model.Trace.
+Require Import MRB.Model.Types MRB.Model.Seq MRB.Spec.Pipe MRB.Model.Async MRB.Model.Trace MRB.Conc.RA MRB.Conc.RAn.
 Extraction Language OCaml.
 Extraction "model.ml" Seq.init Seq.step Seq.run Seq.fresh Seq.succ_idx Seq.first_clone_id
   Pipe.a_init Pipe.sstep Pipe.ok_op Pipe.srun Pipe.a_avail Pipe.a_ring
   Async.astep Async.a_init_state Async.future_of Async.direct_of Async.arun Async.refused
-  Trace.trace Trace.strong_profile Trace.profile_ok.
+  Trace.trace Trace.strong_profile Trace.profile_ok
+  RAn.step_a RAn.exec_a RAn.init_n.
